@@ -28,6 +28,15 @@ CLAIMED = {
  "C07": ("F", "DESIGN.md §7 C07, §3.2",
    "Seeded exploration (engine F): tonic::codec::Streaming is driven poll by poll over simulated bodies carrying mutated/random byte strings in arbitrary chunkings, with injected Pending, body errors of several types, trailers and a silent peer; an independent sequential framing parser is the reference; the stream is polled past its first terminal event. A clean batch is evidence, not proof.",
    "Trusted: the harness's independent frame parser and flate2 write::*/zstd bulk decoders; body scripts are conformant HTTP bodies (nothing after trailers)."),
+ "C16": ("F", "DESIGN.md §7 C16",
+   "Seeded exploration (engine F): the real GrpcWebLayer wraps a scripted inner service; grpc-web requests (binary or one base64 string) are cut at arbitrary positions incl. inside a 4-char quantum; inner gRPC responses (frames cut anywhere, arbitrary trailers incl. repeated names/obs-text, or trailers-only) are translated for Accept binary/text/absent/other; an independent grpc-web decoder checks identical message bytes + exactly one final 0x80 trailers frame listing every trailer; the (method, version, content-type) cases are checked for 405/400/pass-through-unchanged.",
+   "The layer is driven as a tower::Service (no HTTP server around it)."),
+ "C17": ("F", "DESIGN.md §7 C17",
+   "Seeded exploration (engine F): the real GrpcWebClientService in front of a scripted grpc-web server whose body is built by an independent encoder: 0..6 message frames + trailers frame (values with ':' and spaces, repeated names, empty values), delivered in any chunking (inside frame headers, inside the trailers frame, message and trailers in one chunk, 1-byte chunks), truncated at any byte, malformed variants; oracle = same message bytes, full trailer multiset, and an error (never a clean end, hang or busy loop) for a body cut inside a frame.",
+   "A cut exactly at a frame boundary is not judged."),
+ "C18": ("F", "DESIGN.md §7 C18",
+   "Seeded exploration (engine F): histories of set/clear/check/watch/next over a 3-service alphabet issued as tasks on the simulator-owned executor through the generated HealthClient -> HealthServer in-process; the tape picks which runnable task is polled, blocked watchers stay pending while later operations run, every watcher is drained at the end; oracle = sequential map model for Check/subscribe and a per-watcher subsequence/convergence/clear rule for Watch.",
+   "Engine F interleaves at await points only (cooperative); preemptive thread schedules are the Miri engine (thorough tier, when built). Trusted base: tokio RwLock/watch."),
  "C08": ("F", "DESIGN.md §7 C08",
    "Seeded exploration (engine F): metadata maps (ASCII/binary, repeated keys, every length mod 3, reserved-name canaries) on requests, responses, trailers and error statuses cross tonic<->tonic over the loopback (wire tap: canaries never on the wire, -bin values are base64 of the original) and tonic<->foreign peer that pads or does not pad base64; the receiver reads through the typed accessors.",
    "The accessor clause is a pure function of a map: sampled on every received map, not decided."),
